@@ -3,6 +3,10 @@
 The renderings are read back by two readers written from the format descriptions
 (vlib/rd_opb.py, vlib/rd_latex.py) and compared row by row with ``list(F)`` and with
 ``F.all_variable_labels()``.
+
+comment_shield also holds the long-text cases (cases with 'long', run_long): header values and keys, description,
+variable names, block labels and extra_text of 100..5000 characters, in one word, with blanks at the usual wrap
+columns, multi-line, with the comment marks of other formats - OPB, LaTeX snippet and LaTeX document.
 """
 import codecs
 import gc
